@@ -22,6 +22,7 @@ import (
 	"math/rand"
 	"os"
 	"regexp"
+	"runtime"
 	"sort"
 	"strconv"
 	"strings"
@@ -60,6 +61,7 @@ type c06World struct {
 	targetClient int64
 	clock        atomic.Int64 // logical clock: one tick per call / return event
 	expiredAt    int64        // logical instant after which the code is certainly expired (0 = never)
+	foreign      map[string]bool // target addresses of other codes deliberately present in the store
 }
 
 var c06WorldSeq atomic.Int64
@@ -118,7 +120,11 @@ type c06Call struct {
 	MappingID string `json:"mapping_id,omitempty"`
 	Panic     string `json:"panic,omitempty"`
 	// uncertain: the call overlapped a wall-clock expiry deadline (interval rule), any outcome accepted
-	Uncertain bool                `json:"uncertain,omitempty"`
+	Uncertain bool `json:"uncertain,omitempty"`
+	// commitAfterExpiry: the call performed a pre-commit storage operation (claim, id
+	// reservation, mapping write, index append) that certainly started after the code's
+	// activation window had ended, so its commit step certainly ran on an expired code
+	CommitAfterExpiry bool                `json:"commit_after_expiry,omitempty"`
 	ret       *models.PortMapping // returned object
 	callT     time.Time
 	retT      time.Time
@@ -192,7 +198,9 @@ func (w *c06World) scan() *c06Scan {
 		case strings.HasPrefix(k, constants.KeyPrefixPortMapping+":"):
 			var m models.PortMapping
 			if json.Unmarshal([]byte(v), &m) == nil && m.ID != "" {
-				sc.Mains[m.ID] = &m
+				if !w.foreign[m.TargetAddress] {
+					sc.Mains[m.ID] = &m
+				}
 			} else {
 				sc.BadItems++
 			}
@@ -205,19 +213,21 @@ func (w *c06World) scan() *c06Scan {
 			for _, it := range items {
 				var m models.PortMapping
 				if json.Unmarshal([]byte(it), &m) == nil && m.ID != "" {
-					sc.IdxRefs[m.ID] = append(sc.IdxRefs[m.ID], k)
+					if !w.foreign[m.TargetAddress] {
+						sc.IdxRefs[m.ID] = append(sc.IdxRefs[m.ID], k)
+					}
 				} else {
 					sc.BadItems++
 				}
 			}
 		case strings.HasPrefix(k, constants.KeyPrefixRuntimeConnectionCodeByCode):
 			var c models.TunnelConnectionCode
-			if json.Unmarshal([]byte(v), &c) == nil {
+			if json.Unmarshal([]byte(v), &c) == nil && !w.foreign[c.TargetAddress] {
 				sc.CodeBy["code"] = &c
 			}
 		case strings.HasPrefix(k, constants.KeyPrefixRuntimeConnectionCodeByID):
 			var c models.TunnelConnectionCode
-			if json.Unmarshal([]byte(v), &c) == nil {
+			if json.Unmarshal([]byte(v), &c) == nil && !w.foreign[c.TargetAddress] {
 				sc.CodeBy["id"] = &c
 			}
 		}
@@ -280,6 +290,9 @@ func c06Judge(w *c06World, calls []*c06Call, sc *c06Scan, run *vk.Run) []c06Find
 			if r.Kind == "revoke" && r.OK && r.RetStep < a.CallStep {
 				add("C06:activated-after-revoke", fmt.Sprintf("activation %s began (step %d) after revoke %s had returned success (step %d) and returned mapping %s", a.Thread, a.CallStep, r.Thread, r.RetStep, a.MappingID))
 			}
+		}
+		if a.CommitAfterExpiry {
+			add("C06:activated-after-expiry|expired-during-activation", fmt.Sprintf("activation %s was still before its commit step when the code certainly expired, yet it returned mapping %s", a.Thread, a.MappingID))
 		}
 		if w.expiredAt > 0 && a.CallStep > w.expiredAt && !a.Uncertain {
 			add("C06:activated-after-expiry", fmt.Sprintf("activation %s began (step %d) after the code had certainly expired (step %d) and returned mapping %s", a.Thread, a.CallStep, w.expiredAt, a.MappingID))
@@ -989,6 +1002,272 @@ func TestVerifC06Faults(t *testing.T) {
 	run.Floor("single_fault_positions_delivered", int64(n1))
 	run.Floor("faults_delivered", 100)
 	run.Floor("schedules_overlapping_windows", 30)
+	if run.Counter("watchdog") > 0 {
+		run.Floor("watchdog_free", 1)
+	}
+}
+
+// ---------------------------------------------------------------------------
+// monitor 4: the code expires while an activation is in progress
+// ---------------------------------------------------------------------------
+
+func c06Gid() int64 {
+	var buf [64]byte
+	n := runtime.Stack(buf[:], false)
+	f := strings.Fields(string(buf[:n]))
+	if len(f) < 2 {
+		return -1
+	}
+	id, _ := strconv.ParseInt(f[1], 10, 64)
+	return id
+}
+
+type c06TimedOp struct {
+	gid int64
+	op  string
+	key string
+	at  time.Time // instant at which the operation was let through (after any hold)
+}
+
+// c06PreCommit: operations ActivateConnectionCode performs strictly before its commit
+// step (connCode.Activate + code record update) on the success path.
+func c06PreCommit(o c06TimedOp) bool {
+	switch {
+	case strings.HasPrefix(o.key, constants.KeyPrefixRuntimeConnectionCodeByCode),
+		strings.HasPrefix(o.key, constants.KeyPrefixRuntimeConnectionCodeByID),
+		strings.HasPrefix(o.key, constants.KeyPrefixIndexConnectionCodeByTarget):
+		return false
+	case o.op == "GetList":
+		return false // quota read; kept out to stay independent of where the quota lock sits
+	}
+	return o.op == "SetNX" || o.op == "Set" || o.op == "AppendToList" || (o.op == "Get" && strings.HasPrefix(o.key, constants.KeyPrefixPortMapping+":"))
+}
+
+// c06HoldUntil blocks (bounded) until the wall clock is certainly past dl.
+func c06HoldUntil(dl time.Time) bool {
+	for k := 0; k < 5000; k++ {
+		if time.Now().After(dl) {
+			return true
+		}
+		time.Sleep(time.Millisecond)
+	}
+	return time.Now().After(dl)
+}
+
+func TestVerifC06ExpiresDuring(t *testing.T) {
+	vk.Quiet()
+	run := vk.Start(t, "C06", "expires-during")
+	defer run.Finish()
+	run.Rule("code with a real 100 ms activation TTL; (a) one activator is held by the storage gate in front of its k-th storage operation, for every k after the initial read of the code, until creation-return+TTL+3ms has certainly passed, then released; (b) the activator passes validation and then queues on the per-client quota lock held by a slow activation of another code by the same client until the deadline has passed. Interval rule: only activations with a pre-commit operation (claim, id reservation, mapping write, index append) let through certainly after the deadline are judged: they must not return a mapping and nothing may remain in the store; distinct = (variant, k, node) with the hold certainly begun before the deadline")
+	const ttl = 100 * time.Millisecond
+
+	// number of storage operations of an undisturbed activation
+	nOps := 0
+	{
+		w := c06NewWorld(t, 1, 10*time.Minute)
+		var n atomic.Int64
+		w.g.SetHook(func(string, string, string) error { n.Add(1); return nil })
+		c := &c06Call{Thread: "A", Kind: "activate", Node: 0, Client: 30000001, Listen: "0.0.0.0:7001"}
+		w.do(c)
+		w.close()
+		nOps = int(n.Load())
+		if !c.OK || nOps < 6 {
+			t.Fatalf("c06: undisturbed activation: ok=%v ops=%d err=%s", c.OK, nOps, c.Err)
+		}
+	}
+	run.Observe("storage_ops_of_undisturbed_activation", nOps)
+
+	report := func(w *c06World, variant string, k int, calls []*c06Call, ops []c06TimedOp) {
+		scan := w.scan()
+		fs := c06Judge(w, calls, scan, run)
+		if len(fs) == 0 {
+			return
+		}
+		var tr []string
+		for _, o := range ops {
+			tr = append(tr, fmt.Sprintf("g%d %s:%s +%.1fms", o.gid, o.op, c06IDRe.ReplaceAllString(o.key, "$1*"), float64(o.at.Sub(w.createRet))/1e6))
+		}
+		var maps []string
+		for id, m := range scan.Mains {
+			maps = append(maps, fmt.Sprintf("%s listen_client=%d target=%s", id, m.ListenClientID, m.TargetAddress))
+		}
+		sort.Strings(maps)
+		for _, f := range fs {
+			run.Violation(f.Sig, map[string]any{"variant": variant, "held_before_op": k, "activation_ttl_ms": ttl.Milliseconds(), "ops_with_offset_from_code_creation": tr, "calls": calls, "mapping_records": maps, "index_copies": scan.IdxRefs, "reason": f.Reason})
+		}
+	}
+
+	// (a) single activator held in front of its k-th operation
+	reps := run.Pick(1, 4)
+	for rep := 0; rep < reps; rep++ {
+		for node := 0; node < 2; node++ {
+			for k := 2; k <= nOps; k++ {
+				run.Case("hold", []int{k, node})
+				w := c06NewWorld(t, 2, ttl)
+				dl := w.createRet.Add(ttl)
+				var mu sync.Mutex
+				var ops []c06TimedOp
+				var holdStart time.Time
+				held, timedOut := false, false
+				w.g.SetHook(func(tier, op, key string) error {
+					mu.Lock()
+					idx := len(ops) + 1
+					mu.Unlock()
+					if idx == k && !held {
+						held = true
+						holdStart = time.Now()
+						if !c06HoldUntil(dl.Add(3 * time.Millisecond)) {
+							timedOut = true
+						}
+					}
+					mu.Lock()
+					ops = append(ops, c06TimedOp{0, op, key, time.Now()})
+					mu.Unlock()
+					return nil
+				})
+				c := &c06Call{Thread: "A", Kind: "activate", Node: node, Client: 30000001, Listen: "0.0.0.0:7001"}
+				w.do(c)
+				w.g.SetHook(nil)
+				if timedOut {
+					run.Count("watchdog", 1)
+					w.close()
+					continue
+				}
+				run.Eval(1)
+				for _, o := range ops {
+					if c06PreCommit(o) && o.at.After(dl) {
+						c.CommitAfterExpiry = true
+					}
+				}
+				if c.CommitAfterExpiry {
+					run.Count("judged_commit_certainly_after_expiry", 1)
+					if held && holdStart.Before(w.createCall.Add(ttl)) {
+						run.Count("judged_and_validated_certainly_before_expiry", 1)
+						run.Distinct(fmt.Sprintf("hold|k=%d|node=%d", k, node))
+					}
+					if !c.OK {
+						run.Count("rejected_after_expiry_during_activation", 1)
+					}
+				} else if held {
+					run.Count("held_at_or_after_commit_not_judged", 1)
+				}
+				report(w, "hold-at-op", k, []*c06Call{c}, ops)
+				if run.Counter("samples_taken") < 2 && c.CommitAfterExpiry {
+					run.Count("samples_taken", 1)
+					run.Sample(map[string]any{"variant": "hold-at-op", "k": k, "node": node, "call": c})
+				}
+				w.close()
+			}
+		}
+	}
+
+	// (b) queued on the per-client quota lock behind a slow activation of another code
+	nb := run.Pick(4, 24)
+	for i := 0; i < nb; i++ {
+		run.Case("queued-on-quota-lock", i)
+		w := c06NewWorld(t, 1, ttl)
+		dl := w.createRet.Add(ttl)
+		otherTarget := strings.Replace(w.target, "tcp://10.66.", "tcp://10.67.", 1)
+		w.foreign = map[string]bool{otherTarget: true}
+		other, err := w.nodes[0].svc.CreateConnectionCode(&CreateConnectionCodeRequest{
+			TargetClientID: 20000002, TargetAddress: otherTarget, ActivationTTL: 10 * time.Minute, MappingDuration: time.Hour, CreatedBy: "c06",
+		})
+		if err != nil {
+			t.Fatalf("c06: second code: %v", err)
+		}
+		const client = int64(30000001)
+		var mu sync.Mutex
+		var ops []c06TimedOp
+		xHeld := make(chan struct{})
+		yRead := make(chan struct{})
+		var xOnce, yOnce sync.Once
+		var yGid atomic.Int64
+		timedOut := atomic.Bool{}
+		claimKeyX := other.ID
+		w.g.SetHook(func(tier, op, key string) error {
+			g := c06Gid()
+			if op == "SetNX" && strings.Contains(key, claimKeyX) {
+				// X is inside the client's quota critical section: hold it there
+				xOnce.Do(func() { close(xHeld) })
+				if !c06HoldUntil(dl.Add(3 * time.Millisecond)) {
+					timedOut.Store(true)
+				}
+			}
+			mu.Lock()
+			ops = append(ops, c06TimedOp{g, op, key, time.Now()})
+			mu.Unlock()
+			if g == yGid.Load() && op == "Get" && strings.HasPrefix(key, constants.KeyPrefixRuntimeConnectionCodeByCode) {
+				yOnce.Do(func() { close(yRead) })
+			}
+			return nil
+		})
+		var wg sync.WaitGroup
+		var xOK bool
+		wg.Add(1)
+		go func() {
+			defer wg.Done()
+			m, err := w.nodes[0].svc.ActivateConnectionCode(&ActivateConnectionCodeRequest{Code: other.Code, ListenClientID: client, ListenAddress: "0.0.0.0:7050"})
+			xOK = err == nil && m != nil
+		}()
+		okSetup := true
+		select {
+		case <-xHeld:
+		case <-time.After(5 * time.Second):
+			okSetup = false
+		}
+		y := &c06Call{Thread: "Y", Kind: "activate", Node: 0, Client: client, Listen: "0.0.0.0:7001"}
+		wg.Add(1)
+		go func() {
+			defer wg.Done()
+			yGid.Store(c06Gid())
+			w.do(y)
+		}()
+		fin := make(chan struct{})
+		go func() { wg.Wait(); close(fin) }()
+		select {
+		case <-fin:
+		case <-time.After(20 * time.Second):
+			okSetup = false
+		}
+		w.g.SetHook(nil)
+		if !okSetup || timedOut.Load() {
+			run.Count("watchdog", 1)
+			w.close()
+			continue
+		}
+		run.Eval(1)
+		if xOK {
+			run.Count("lock_holder_activation_ok", 1)
+		}
+		var yFirst time.Time
+		yOpsAfter := 0
+		for _, o := range ops {
+			if o.gid != yGid.Load() {
+				continue
+			}
+			if yFirst.IsZero() {
+				yFirst = o.at
+			}
+			if c06PreCommit(o) && o.at.After(dl) {
+				y.CommitAfterExpiry = true
+				yOpsAfter++
+			}
+		}
+		if y.CommitAfterExpiry {
+			run.Count("judged_commit_certainly_after_expiry", 1)
+			if !yFirst.IsZero() && yFirst.Before(w.createCall.Add(ttl)) {
+				run.Count("judged_queued_on_quota_lock", 1)
+				run.Distinct(fmt.Sprintf("queued|%d", i))
+			}
+			if !y.OK {
+				run.Count("rejected_after_expiry_during_activation", 1)
+			}
+		}
+		report(w, "queued-on-quota-lock", 0, []*c06Call{y}, ops)
+		w.close()
+	}
+	run.Floor("judged_and_validated_certainly_before_expiry", 8)
+	run.Floor("rejected_after_expiry_during_activation", 8)
 	if run.Counter("watchdog") > 0 {
 		run.Floor("watchdog_free", 1)
 	}
